@@ -416,3 +416,88 @@ def huge2d(case, ctx):
     case = dict(case, f=f)
     ctx.tag("samples>2^20" if m * n > 2**20 else "samples<=2^20", "huge2d")
     _check_forward(case, ctx, oracle="C01.huge2d")
+
+
+# --- one geometry, one parameter stepping through consecutive integers (a window slid sample by sample) -------------
+
+@st.composite
+def slide_case(draw, tier="quick"):
+    big = draw(st.integers(0, 3)) == 0
+    if big:
+        in_shape = (draw(st.integers(90, 130)), draw(st.integers(90, 130)))
+        out_shape = (draw(st.integers(90, 130)), draw(st.integers(90, 130)))
+    else:
+        in_shape, out_shape = draw(gen.shape2(2, 12)), draw(gen.shape2(2, 12))
+    alpha = [draw(gen.signed_log(1e-3, 0.3)) / (10 if big else 1), draw(gen.signed_log(1e-3, 0.3)) / (10 if big else 1)]
+    base_shift = [float(draw(st.integers(-3, 3))), float(draw(st.integers(-3, 3)))] if draw(st.booleans()) else [0.0, 0.0]
+    base_off = [draw(st.integers(-3, 3)), draw(st.integers(-3, 3))] if draw(st.booleans()) else [0, 0]
+    slot = draw(st.sampled_from(["shift_r", "shift_c", "offset_r", "offset_c"]))
+    vals = draw(st.permutations([-3, -2, -1, 0, 1, 2]))
+    return {"in_shape": list(in_shape), "out_shape": list(out_shape), "alpha": alpha, "base_shift": base_shift,
+            "base_offset": base_off, "slot": slot, "values": list(vals)[:draw(st.integers(3, 6))],
+            "seed": draw(st.integers(0, 2**31 - 1)), "unitary": draw(st.booleans()), "same_input": draw(st.booleans())}
+
+
+@hyp("C01", "slide", lambda tier: slide_case(tier),
+     "3-6 consecutive dft2 calls with identical shapes and alpha in which one of shift / offset (row or column) steps "
+     "through consecutive integers in a drawn order, everything else equal: each result vs the defining sum",
+     examples=(120, 500), budget_s=(150, 700))
+def slide(case, ctx):
+    rng = np.random.default_rng(case["seed"])
+    shp = tuple(case["in_shape"])
+    f0 = rng.normal(size=shp) + 1j * rng.normal(size=shp)
+    ctx.tag("slot:" + case["slot"], "big" if max(shp) >= 90 else "small", f"steps:{len(case['values'])}",
+            "passes_-1_and_-2" if -1 in case["values"] and -2 in case["values"] else None)
+    ctx.nontrivial_if(len(case["values"]) >= 3)
+    for v in case["values"]:
+        shift, off = list(case["base_shift"]), list(case["base_offset"])
+        if case["slot"] == "shift_r":
+            shift[0] = float(v)
+        elif case["slot"] == "shift_c":
+            shift[1] = float(v)
+        elif case["slot"] == "offset_r":
+            off[0] = int(v)
+        else:
+            off[1] = int(v)
+        f = f0 if case["same_input"] else rng.normal(size=shp) + 1j * rng.normal(size=shp)
+        step = {"forms": {"dtype": "complex", "layout": "C"}, "f": f, "alpha_arg": list(case["alpha"]), "alpha": list(case["alpha"]),
+                "akind": "pair", "out_shape": list(case["out_shape"]), "shape_arg": "pair", "shift": shift, "offset": off,
+                "unitary": case["unitary"], "out": "none"}
+        _check_forward(step, ctx, oracle="C01.slide")
+
+
+# --- one full period of a frame of more than 2^20 samples --------------------------------------------------------------
+
+@hyp("C01", "mega_period", lambda tier: st.fixed_dictionaries(
+        {"shape": st.one_of(st.tuples(st.integers(512, 530).map(lambda k: 2 * k + 1), st.integers(1025, 1060)),
+                            st.tuples(st.integers(1025, 1060), st.integers(512, 530).map(lambda k: 2 * k + 1)),
+                            st.tuples(st.integers(513, 530).map(lambda k: 2 * k), st.integers(513, 530).map(lambda k: 2 * k))).map(list),
+         "seed": st.integers(0, 2**31 - 1),
+         "unitary": st.booleans(), "out": st.sampled_from(["none", "dirty"]), "inverse": st.booleans()}),
+     "dft2 (and idft2) of a frame of more than 2^20 samples over exactly one period (alpha = 1/shape, output shape = "
+     "input shape, no shift or offset; odd and even lengths) vs the centred FFT", examples=(2, 6), budget_s=(200, 800))
+def mega_period(case, ctx):
+    m, n = case["shape"]
+    rng = np.random.default_rng(case["seed"])
+    f = rng.normal(size=(m, n)) + 1j * rng.normal(size=(m, n))
+    alpha = (1.0 / m, 1.0 / n)
+    ctx.tag("mega", "odd_axis" if m % 2 or n % 2 else "even_axes", "unitary" if case["unitary"] else "plain", "out:" + case["out"])
+    ctx.nontrivial_if(True)
+    kw = {"out": np.full((m, n), 3.0 - 2j)} if case["out"] == "dirty" else {}
+    with lentil_call("C01.mega_period", f"dft2({m}x{n}, alpha = 1/shape)"):
+        F = fourier.dft2(f, alpha, unitary=case["unitary"], **kw)
+    ref = np.fft.fftshift(np.fft.fft2(np.fft.ifftshift(f)))          # origin sample floor(n/2) on both planes, any parity
+    if case["unitary"]:
+        ref = ref / np.sqrt(m * n)
+    tol = 64 * np.finfo(float).eps * (1 + np.pi * (m + n)) * float(np.sum(np.abs(f))) * (1 / np.sqrt(m * n) if case["unitary"] else 1.0) / np.sqrt(m * n) * 8
+    err = float(np.max(np.abs(F - ref)))
+    if F.shape != (m, n) or err > tol:
+        raise Violation("C01.mega_period.value", f"dft2 of a {m}x{n} frame over one period differs from the centred FFT by "
+                                                 f"{err:.3e} (tol {tol:.3e})")
+    if kw and F is not kw["out"]:
+        raise Violation("C01.mega_period.out", "out= buffer is not the returned array")
+    if case["inverse"]:
+        with lentil_call("C01.mega_period", "idft2"):
+            g = fourier.idft2(ref, alpha, unitary=case["unitary"])
+        if float(np.max(np.abs(g - f))) > tol / (1 if case["unitary"] else m * n) * 8 + 1e-9:
+            raise Violation("C01.mega_period.inverse", f"idft2 of the one-period transform of a {m}x{n} frame does not return it")
